@@ -30,8 +30,9 @@ VARTIME_CMP = {"memcmp", "bcmp", "strcmp", "strncmp", "memchr", "strlen", "strch
 
 
 class Taint:
-    def __init__(self, prog, resolve_slots):
+    def __init__(self, prog, resolve_slots, type_hints=None):
         self.prog = prog
+        self.type_hints = type_hints or {}      # func key -> {(root, prefix offsets): type} from the unoptimised shape
         self.resolve_slots = resolve_slots        # (func, call inst) -> [Func]
         self.funcs = sorted(prog.defined(), key=lambda f: f.key)
         self.am = {f.key: AddrMap(f) for f in self.funcs}
@@ -80,6 +81,8 @@ class Taint:
                 return None
             return ("mem", "load from mutable global @%s" % r[1])
         seg = a.segs[-1]
+        if not seg.ty:
+            seg = seg._replace(ty=self._infer_ty(f, a))
         if seg.ty:
             off = seg.off if seg.off is not None else (seg.rng[0] if seg.rng else None)
             if off is not None:
@@ -103,8 +106,39 @@ class Taint:
             return None if g and g[1]["constant"] else ("mem", "mutable global")
         return ("mem", "secret memory %s" % addr_str(a, self.prog))
 
+    def _infer_ty(self, f, a):
+        """type of the object behind the last dereference of `a` when this access is untyped (an i8 GEP after
+        optimisation): the type every other access to the same object in this function agrees on."""
+        cache = self.__dict__.setdefault("_tycache", {})
+        if f.key not in cache:
+            m = {}
+            am = self.am[f.key]
+            for i in f.all_insts():
+                ps = []
+                if i["op"] == "load":
+                    ps = [i["ops"][0]]
+                elif i["op"] == "store":
+                    ps = [i["ops"][1]]
+                elif i["op"] == "getelementptr":
+                    ps = [["i", i["id"]]]
+                for p in ps:
+                    b = am.of(p)
+                    if b is None or not b.segs[-1].ty:
+                        continue
+                    k = (b.root, tuple(x.off for x in b.segs[:-1]))
+                    m.setdefault(k, set()).add(b.segs[-1].ty)
+            cache[f.key] = m
+        k = (a.root, tuple(x.off for x in a.segs[:-1]))
+        tys = cache[f.key].get(k, ())
+        if not tys:
+            tys = self.type_hints.get(f.key, {}).get(k, ())
+        return next(iter(tys)) if len(tys) == 1 else None
+
+
     def store_class_is_L(self, f, inst):
         a = self.am[f.key].of(inst["ops"][1])
+        if a is not None and a.segs[-1].off is not None and not a.segs[-1].ty and len(a.segs) > 1:
+            a = a._replace(segs=a.segs[:-1] + (a.segs[-1]._replace(ty=self._infer_ty(f, a)),))
         if a is None or a.segs[-1].off is None or not a.segs[-1].ty:
             return None
         if len(a.segs) == 1 and a.root[0] == "alloca":
@@ -413,3 +447,27 @@ class Taint:
                 self.counts["R8"] += 1
                 if self.level(f, i["ops"][0]):
                     self._report("R8", f, i, "returned status depends on a secret", i["ops"][0])
+
+
+def type_hints(prog):
+    """{func key: {(root, offsets of the dereferenced fields): {type}}} from a shape that still has typed accesses."""
+    out = {}
+    for f in prog.defined():
+        am = AddrMap(f)
+        m = {}
+        for i in f.all_insts():
+            ps = []
+            if i["op"] == "load":
+                ps = [i["ops"][0]]
+            elif i["op"] == "store":
+                ps = [i["ops"][1]]
+            elif i["op"] == "getelementptr":
+                ps = [["i", i["id"]]]
+            for p in ps:
+                b = am.of(p)
+                if b is None or not b.segs[-1].ty or len(b.segs) < 2:
+                    continue
+                m.setdefault((b.root, tuple(x.off for x in b.segs[:-1])), set()).add(b.segs[-1].ty)
+        if m:
+            out[f.key] = m
+    return out
